@@ -1,6 +1,7 @@
 //! C20 — chemical-reaction steps conserve energy and keep molecules aligned.
 //! Component level: the four reaction updates on prepared stacks under all generator tapes to a
 //! prefix depth. Run level: every update step of `real_cro` runs under bounded deviations.
+use crate::engine::util::catch;
 use crate::engine::report::{Part, Report, Tier};
 use crate::engine::tape::{self, Cfg, Outcome, MENU19, MENU4, MENU8};
 use crate::engine::util::{fnv, sequences};
@@ -173,6 +174,46 @@ fn check_reinit(sizes: &[usize]) -> Option<(String, String)> {
                 ctx(format!("after execution {} on {} individuals there are {} molecule records (remembered solution, kinetic energy) {:?}, expected {:?}", k, n, mols.len(), mols, exp)),
             ));
         }
+    }
+    None
+}
+
+/// A chemical reaction started inside a scope (initialised and executed there, on a population of its own) while an enclosing
+/// one is running: afterwards the enclosing reaction's molecule records and buffer are what they were (one record per individual
+/// of the outer population, in order).
+fn check_nested_reaction(outer_n: usize, inner_n: usize) -> Option<(String, String)> {
+    let outer: Box<dyn Component<TagP>> = ChemicalReactionInit::new(1.5, 2.0);
+    let inner: Box<dyn Component<TagP>> = ChemicalReactionInit::new(0.25, 7.0);
+    let opop: Vec<TInd> = (0..outer_n).map(|i| (i as u32, i as f64 + 0.5)).collect();
+    let ipop: Vec<TInd> = (0..inner_n).map(|i| (100 + i as u32, i as f64 * 2.0 + 1.0)).collect();
+    let mut st = state_with::<TagP>(vec![tpop(&opop)]);
+    let ctx = |w: String| format!("outer reaction on {} individuals (kinetic energy 1.5, buffer 2); inside a scope a second ChemicalReactionInit (0.25, 7) is initialised and executed on a population of {} individuals: {}", outer_n, inner_n, w);
+    let r = catch(|| -> Result<(), String> {
+        outer.init(&TagP, &mut st).map_err(|e| format!("{:#}", e))?;
+        outer.execute(&TagP, &mut st).map_err(|e| format!("{:#}", e))?;
+        st.with_inner_state(|s| {
+            s.populations_mut().push(tpop(&ipop));
+            inner.init(&TagP, s)?;
+            inner.execute(&TagP, s)?;
+            let n = s.borrow::<ChemicalReaction<TagP>>().len();
+            eyre::ensure!(n == ipop.len(), "the inner reaction holds {} molecule records for {} individuals", n, ipop.len());
+            s.populations_mut().pop();
+            Ok(())
+        })
+        .map(|_| ())
+        .map_err(|e| format!("{:#}", e))
+    });
+    match r {
+        Err(p) => return Some(("C20 init nested-in-scope panic".into(), ctx(p))),
+        Ok(Err(e)) => return Some(("C20 init nested-in-scope error".into(), ctx(e))),
+        _ => {}
+    }
+    let reaction = st.borrow::<ChemicalReaction<TagP>>();
+    let mols: Vec<(u32, f64)> = reaction.iter().map(|m| (*m.best.solution(), m.kinetic_energy)).collect();
+    let exp: Vec<(u32, f64)> = opop.iter().map(|i| (i.0, 1.5)).collect();
+    let buffer = st.get_value::<EnergyBuffer>();
+    if mols != exp || buffer != 2.0 {
+        return Some(("C20 init nested-in-scope outer-reaction-changed".into(), ctx(format!("afterwards the outer state holds molecule records {:?} (expected {:?}) and buffer {} (expected 2)", mols, exp, buffer))));
     }
     None
 }
@@ -418,6 +459,7 @@ pub fn run(rep: &mut Report) {
     rep.alpha("run level: every reaction update of real_cro runs (5 parameter sets x objective functions) under the default generator stream with at most one replaced word at every draw position");
     rep.assume("energy = sum of objective values of the population + sum of kinetic energies + buffer, compared with relative tolerance 1e-9; populations with exact duplicate individuals are left to the run level");
     rep.assume("all energies are finite: with an infinite objective value (death penalty) or an overflowing sum the total is infinite and \"unchanged up to rounding\" states nothing; such molecules are outside the alphabet (the unchanged updates already turn inf - inf into NaN kinetic energies there)");
+    rep.alpha("a second chemical reaction initialised and executed inside a scope while an outer one exists (0..3 x 0..3 individuals)");
     rep.alpha("a bystander molecule identical to one of two reactants ([x, x, y] with x + y reacting, either storage order, four molecules)");
     let seed = rep.seed;
     let ps = preps(thorough);
@@ -431,6 +473,17 @@ pub fn run(rep: &mut Report) {
             part.outcome(format!("executions:{}", l));
             if let Some((s, d)) = check_reinit(&seq) {
                 part.violate(s, d, json!({"kind": "reinit", "sizes": seq, "tape": [], "thorough": thorough, "seed": seed}));
+            }
+        }
+    }
+    for outer_n in 0..=3usize {
+        for inner_n in 0..=3usize {
+            part.transitions += 2;
+            part.traces += 1;
+            part.states += 1;
+            part.outcome("nested-in-scope");
+            if let Some((s, d)) = check_nested_reaction(outer_n, inner_n) {
+                part.violate(s, d, json!({"kind": "nested-reaction", "outer": outer_n, "inner": inner_n, "tape": [], "thorough": thorough, "seed": seed}));
             }
         }
     }
@@ -527,6 +580,7 @@ pub fn replay(case: &Value) -> Result<Vec<(String, String)>, String> {
             let sizes: Vec<usize> = case["sizes"].as_array().ok_or("no sizes")?.iter().map(|x| x.as_u64().unwrap() as usize).collect();
             Ok(check_reinit(&sizes).into_iter().collect())
         }
+        "nested-reaction" => Ok(check_nested_reaction(case["outer"].as_u64().unwrap_or(2) as usize, case["inner"].as_u64().unwrap_or(2) as usize).into_iter().collect()),
         "prep" => {
             let want = case["prep"].as_str().ok_or("no prep")?;
             let ps = preps(thorough);
